@@ -153,13 +153,20 @@ def run(ctx):
 
     def gen(name, maxn, bset, geoms, pros, extras, simulate=None, args=()):
         if simulate:
-            res = ctx.tlc("Docs", None, workers=8, cfg_text=DOCS_CFG % (maxn, bset, q(geoms), q(pros), q(extras), SIM, "EmitFull"), simulate="num=%d" % max(1, simulate // 8), depth=maxn + 2, timeout=3000)
+            res = ctx.tlc("Docs", None, workers=8, cfg_text=DOCS_CFG % (maxn, bset, q(geoms), q(pros), q(extras), SIM, "EmitFull"), simulate="num=%d" % max(1, simulate // 8), depth=maxn + 2, timeout=3000,
+                          seed=ctx.seed if thorough else 1)
         else:
             res = ctx.tlc("Docs", None, workers=16, cfg_text=DOCS_CFG % (maxn, bset, q(geoms), q(pros), q(extras), EXH, "EmitAll"), timeout=3000, heap_gb=12)
         scn, cnt, first = ctx.scenario_lines(res)
         os.remove(res.out_path)
         if cnt == 0:
             raise MachineryError("no document generated (%s)" % name)
+        # TLC's workers print in a varying order: sort, so that the configuration a document is rendered under (-rotate) and
+        # the sampled subset (-stride) do not vary from run to run
+        lines = sorted(set(open(scn).read().splitlines()))
+        with open(scn, "w") as f:
+            f.write("\n".join(lines) + "\n")
+        cnt = len(lines)
         ctx.samples.extend(first[-1:])
         runs.append((name, scn, cnt, list(args)))
 
@@ -216,7 +223,8 @@ def run(ctx):
     for name, scn, cnt, args in runs:
         ver = os.path.join(ctx.scratch, "ver_%s.ndjson" % name)
         rec = os.path.join(ctx.scratch, "trace_%s.ndjson" % name)
-        ctx.vdrive(["c01", "-in", scn, "-out", ver, "-timeout", "30s"] + args, timeout=14000)
+        # (the quick tier is reproducible: its sampled families do not depend on VERIF_SEED; the thorough tier varies them)
+        ctx.vdrive(["c01", "-in", scn, "-out", ver, "-timeout", "30s"] + args, timeout=14000, env=None if thorough else {"VERIF_SEED": "1"})
         # process-level verdicts become trace records too (terminal event Timeout / Fatal)
         extra_recs = []
         abnormal_harness = 0
